@@ -23,6 +23,7 @@ typedef struct {
   unsigned pct_depth;    // PCT priority change points
   uint64_t est_points;   // PCT / STALL: estimated execution length
   unsigned poison_heap;  // poison + quarantine freed blocks (operator delete)
+  unsigned tick_ns;      // virtual ns added per schedule point (0 = 1): larger values shorten clock-polling spin loops
 } dsched_cfg;
 
 typedef struct {
